@@ -954,7 +954,9 @@ class Decision:
                     if v.ty.kind in ("int", "bool", "dur", "tp") and not self.t.assigned(d["id"], ss[i + 1:]):
                         name = lean_ident(d.get("name"), [p for p, _ in self.t.spec])
                         self.t.locals[d["id"]] = (name, v.ty)
-                        rest_txt = self.walk(ss[i + 1:], path + ["neutral let " + name], ind)
+                        # a local that reads the object's state is only the same decision when no guard is taken after it
+                        tag = "neutral letstate " if any(x.get("kind") == "CXXThisExpr" for x in walk(kids(d)[-1])) else "neutral let "
+                        rest_txt = self.walk(ss[i + 1:], path + [tag + name], ind)
                         return "%slet %s : %s := %s\n%s" % (pad, name, "Bool" if v.ty == BOOL else "Int",
                                                             as_bool(v) if v.ty == BOOL else v.s, rest_txt)
                 except Untranslatable:
@@ -962,6 +964,8 @@ class Decision:
             text = canon_stmt(s)
             if k == "DeclStmt" and NEUTRAL_DECL_TYPES.search(re.sub(r"^const\s+", "", (kids(s)[0].get("type") or {}).get("qualType", ""))):
                 text = "neutral " + text
+                if any(p.startswith("neutral letstate ") for p in path):
+                    fail("the object's state is read before the guard `%s` is taken" % text[8:60])
             path.append(text)
             i += 1
             if k == "ReturnStmt" or (k in STRIP and _strip(s)["kind"] == "CXXThrowExpr") or k == "CXXThrowExpr":
@@ -996,7 +1000,19 @@ def normalise_leaf(leaf):
         for a, b in syn:
             s = s.replace(a, b)
         res.append(s)
-    return res
+    # a local that only names the element just appended (`auto &&x = c.emplace_back(a);`: emplace_back returns a
+    # reference to the new last element) is that element: the effect is `c.emplace_back(a)`, later `x` is `c.top()`
+    out2 = []
+    alias = {}
+    for s in res:
+        for x, rep in alias.items():
+            s = re.sub(r"(?<![A-Za-z0-9_.>])%s(?![A-Za-z0-9_])" % re.escape(x), rep, s)
+        m = re.match(r"^decl (\w+) = ((\w+)\.emplace_back\(.*\))$", s)
+        if m:
+            alias[m.group(1)] = m.group(3) + ".top()"
+            s = m.group(2)
+        out2.append(s)
+    return out2
 
 
 def classify_table(table):
@@ -1009,14 +1025,13 @@ def classify_table(table):
 
 
 GET_TABLE = [
-    (".allocateNew", [["decl buf = m_busy.emplace_back(make_unique())", "return BufferPtr(buf.get(),Recycler{this})"]]),
+    # (after `normalise_leaf`: a local naming the appended element is `m_busy.top()`)
+    (".allocateNew", [["m_busy.emplace_back(make_unique())", "return BufferPtr(m_busy.top().get(),Recycler{this})"]]),
     (".throwOutOfBuffers", [["throw runtime_error(out of buffers)"], ['throw runtime_error("out of buffers")']]),
-    (".reuseIdleTop true", [["decl buf = m_busy.emplace_back(move(m_idle.top()))", "m_idle.pop()", "buf->clear()",
-                             "return BufferPtr(buf.get(),Recycler{this})"]]),
     (".reuseIdleTop true", [["m_busy.emplace_back(move(m_idle.top()))", "m_idle.pop()", "m_busy.top()->clear()",
                              "return BufferPtr(m_busy.top().get(),Recycler{this})"]]),
-    (".reuseIdleTop false", [["decl buf = m_busy.emplace_back(move(m_idle.top()))", "m_idle.pop()",
-                              "return BufferPtr(buf.get(),Recycler{this})"]]),
+    (".reuseIdleTop false", [["m_busy.emplace_back(move(m_idle.top()))", "m_idle.pop()",
+                              "return BufferPtr(m_busy.top().get(),Recycler{this})"]]),
 ]
 STEP_TABLE = [
     (".socketsOnly", [["StepSockets(timeout)"]]),
@@ -1173,43 +1188,213 @@ SOCKET_LEAVES = {
 
 
 def tr_socket_chain(repo, docs, src):
-    """`Driver::DriverImpl::DoOneSocketTask(received)`: the per-socket `if / else if` chain of its `for` loop as a
-    decision function of the socket's `revents` and of `i == received` (what the model calls `pick`)"""
+    """`Driver::DriverImpl::DoOneSocketTask(received)`: what it does with ONE socket of its list, as a decision
+    function of that socket's `revents` and of "this is the socket `QuerySockets` returned" (the model's `pick`).
+    The chain of tests is found in the body of the loop over the sockets, or in the helper function of the same file
+    that the loop body calls with the socket; it may be an `if / else if` chain or a sequence of `if(..) {..; return ..;}`.
+    Each branch is recognised by the ONE `sock.DriverOn*` call it makes (the writable branch must be exactly
+    `if(sock.DriverOnWritable()) { pfd.events &= ~POLLOUT; }`) and must end in a `return`."""
     fn = find_function(docs, "DoOneSocketTask", "DriverImpl", ("CXXMethodDecl",))
     t = Fn(repo, [("revents", INTS["unsigned int"]), ("isReceived", BOOL)], {})
     t.bind_params(fn)
     t.file = _file_of(repo, docs, fn, src)
     top = [x for x in kids(body_of(fn)) if not _is_assert(x)]
-    if len(top) != 2 or top[0]["kind"] != "ForStmt" or _src_norm(t, top[1]) not in (
-            'throwstd::logic_error("unhandledpollevent")', 'throwstd::logic_error("unhandledpollevent");'):
-        fail("body is not `for(..) {..} throw std::logic_error(\"unhandled poll event\")`")
-    fk = kids(top[0])
-    head = _src_norm(t, top[0])
-    if not head.startswith("for(size_ti=0U;i<sockets.size();++i)"):
-        fail("loop header is `%s`" % head[:50])
-    ss = [x for x in kids(fk[-1]) if not _is_assert(x)]
-    decls = [x for x in ss if x["kind"] == "DeclStmt"]
-    rest = [x for x in ss if x["kind"] != "DeclStmt"]
-    if sorted(_src_norm(t, d) for d in decls) != sorted(["auto&&pfd=pfds[i+1U];", "auto&&sock=sockets[i].get();"]):
-        fail("the loop body does not start with the bindings of `pfd` and `sock`")
-    if len(rest) != 1 or rest[0]["kind"] != "IfStmt":
-        fail("the loop body is not one if / else-if chain")
+    loops = [x for x in top if x["kind"] in ("ForStmt", "CXXForRangeStmt")]
+    if len(loops) != 1 or _strip(top[-1])["kind"] != "CXXThrowExpr" or top.index(loops[0]) != len(top) - 2:
+        fail("body is not `.. for(each socket) {..} throw std::logic_error(..)`")
+    if "sockets" not in _src_norm(t, loops[0]).split("{")[0]:
+        fail("the loop does not run over `sockets`")
+    body = kids(loops[0])[-1]
+    ss = [x for x in (kids(body) if body["kind"] == "CompoundStmt" else [body]) if not _is_assert(x)]
+    received_names = set()
 
-    def chain(n, ind):
+    def is_received(n):
+        n = _strip(n)
+        while n["kind"] == "ImplicitCastExpr" and len(kids(n)) == 1:
+            n = _strip(kids(n)[0])
+        if n["kind"] == "BinaryOperator" and n.get("opcode") == "==" and "received" in (canon(kids(n)[0]), canon(kids(n)[1])):
+            return True
+        return n["kind"] == "DeclRefExpr" and n.get("referencedDecl", {}).get("name") in received_names
+
+    def cond(n):
+        n = _strip(n)
+        while n["kind"] == "ImplicitCastExpr" and len(kids(n)) == 1:
+            n = _strip(kids(n)[0])
+        if is_received(n):
+            return "(isReceived = true)"
+        k = n["kind"]
+        if k == "BinaryOperator" and n.get("opcode") in ("||", "&&"):
+            return "(%s %s %s)" % (cond(kids(n)[0]), "∨" if n["opcode"] == "||" else "∧", cond(kids(n)[1]))
+        if k == "UnaryOperator" and n.get("opcode") == "!":
+            return "(¬ %s)" % cond(kids(n)[0])
+        if k == "BinaryOperator" and n.get("opcode") == "&":
+            if canon(kids(n)[0]) not in ("pfd.revents", "pfd->revents"):
+                fail("bit test of `%s`" % canon(kids(n)[0])[:40])
+            return "(revents &&& %d ≠ 0)" % _const_int(kids(n)[1])
+        if k == "BinaryOperator" and n.get("opcode") in ("!=", "==") and kids(n)[0] and \
+                _strip(kids(n)[0])["kind"] in ("ParenExpr", "BinaryOperator", "ImplicitCastExpr"):
+            # `(pfd.revents & MASK) != 0`
+            try:
+                if _const_int(kids(n)[1]) == 0:
+                    c = cond(kids(n)[0])
+                    return c if n["opcode"] == "!=" else "(¬ %s)" % c
+            except Untranslatable:
+                pass
+        fail("condition of the dispatch chain outside the subset (%s)" % k)
+
+    # the chain itself: here, or in the helper the loop body hands the socket to
+    host_file = t.file
+    calls = [x for st_ in ss for x in walk(st_) if x.get("kind") in ("CallExpr", "CXXMemberCallExpr")
+             and any(y.get("kind") == "DeclRefExpr" and y.get("referencedDecl", {}).get("name") == "sock" for a in kids(x)[1:] for y in walk(a))]
+    chain_stmts = None
+    if any(x["kind"] == "IfStmt" and any(c in _src_norm(t, x) for c in ("DriverOnReadable", "DriverOnError")) for x in ss):
+        chain_stmts = [x for x in ss if x["kind"] == "IfStmt"]
+        extra = [x for x in ss if x["kind"] not in ("IfStmt", "DeclStmt")]
+        if extra:
+            fail("the loop body contains `%s`" % _src_norm(t, extra[0])[:50])
+    elif len(calls) == 1:
+        call = calls[0]
+        callee = kids(call)[0]
+        name = callee.get("name") if callee.get("kind") == "MemberExpr" else None
+        if name is None:
+            try:
+                name = t.callee(call)[0]
+            except Untranslatable:
+                fail("the loop body calls something that is not a named function")
+        hdocs = ast_docs(repo, src, name)
+        cands = {}
+        for d in hdocs:
+            for x in walk(d):
+                if x.get("kind") in ("FunctionDecl", "CXXMethodDecl") and x.get("name") == name and body_of(x) is not None \
+                        and len([c for c in kids(x) if c["kind"] == "ParmVarDecl"]) == len(kids(call)) - 1:
+                    cands[x.get("id")] = x
+        if len(cands) != 1:
+            fail("helper `%s` of the loop body: %d definitions" % (name, len(cands)))
+        h = list(cands.values())[0]
+        host_file = _file_of(repo, hdocs, h, src)
+        # its bool parameter that receives `index == received`
+        for p, a in zip([c for c in kids(h) if c["kind"] == "ParmVarDecl"], kids(call)[1:]):
+            if is_received(a):
+                received_names.add(p.get("name"))
+        # the call must decide the `return` of the loop: `if(helper(..)) return;`
+        holder = [x for x in ss if any(y is call for y in walk(x))][0]
+        if holder["kind"] != "IfStmt" or _src_norm(t, kids(holder)[1]).strip("{}") not in ("return;", "return"):
+            fail("the result of `%s` does not decide the `return` of the loop" % name)
+        chain_stmts = [x for x in kids(body_of(h)) if not _is_assert(x)]
+        if _src_norm(_Tmp(host_file), chain_stmts[-1]) not in ("returnfalse", "returnfalse;"):
+            fail("helper `%s` does not end in `return false`" % name)
+        chain_stmts = chain_stmts[:-1]
+    else:
+        fail("no dispatch chain found in the loop over the sockets")
+    tt = _Tmp(host_file)
+
+    def flatten(stmts):
+        out = []
+        for x in stmts:
+            if x["kind"] != "IfStmt":
+                fail("the chain contains `%s`" % _src_norm(tt, x)[:50])
+            n = x
+            while True:
+                parts = kids(n)
+                out.append((parts[0], parts[1]))
+                if len(parts) == 2:
+                    break
+                if parts[2]["kind"] != "IfStmt":
+                    fail("the chain ends in a plain else")
+                n = parts[2]
+        return out
+
+    def leaf(n):
+        inner = kids(n) if n["kind"] == "CompoundStmt" else [n]
+        if not inner or inner[-1]["kind"] != "ReturnStmt":
+            fail("a branch of the chain does not end in a return")
+        eff = inner[:-1]
+        names = sorted({m for x in eff for m in re.findall(r"sock\.(DriverOn\w+)\(", _src_norm(tt, x))})
+        if names == ["DriverOnReadable"] and len(eff) == 1 and _src_norm(tt, eff[0]).rstrip(";") == "sock.DriverOnReadable()":
+            return ".readable"
+        if names == ["DriverOnWritable"] and len(eff) == 1 and \
+                _src_norm(tt, eff[0]) in ("if(sock.DriverOnWritable()){pfd.events&=~POLLOUT;}",):
+            return ".writable"
+        if names == ["DriverOnError"] and len(eff) == 1 and re.match(r'^sock\.DriverOnError\("[^"]*"\);?$', _src_norm(tt, eff[0])):
+            return ".error"
+        fail("unrecognised task `%s`" % "".join(_src_norm(tt, x) for x in eff)[:80])
+    branches = [(cond(c), leaf(b)) for c, b in flatten(chain_stmts)]
+
+    def render(i, ind):
         pad = "  " * ind
-        parts = kids(n)
-        c = _bit_cond(parts[0])
-        leaf = "".join(_src_norm(t, x).rstrip(";") + ";" for x in (kids(parts[1]) if parts[1]["kind"] == "CompoundStmt" else [parts[1]]))
-        if leaf not in SOCKET_LEAVES:
-            fail("unrecognised task `%s`" % leaf[:80])
-        if len(parts) == 2:
-            el = pad + "  .next"
-        elif parts[2]["kind"] == "IfStmt":
-            el = chain(parts[2], ind + 1)
-        else:
-            fail("the chain ends in a plain else")
-        return "%sif %s then\n%s  %s\n%selse\n%s" % (pad, c, pad, SOCKET_LEAVES[leaf], pad, el)
-    return t, chain(rest[0], 1)
+        if i == len(branches):
+            return pad + ".next"
+        return "%sif %s then\n%s  %s\n%selse\n%s" % (pad, branches[i][0], pad, branches[i][1], pad, render(i + 1, ind + 1))
+    return t, render(0, 1)
+
+
+class _Tmp:
+    """just enough of `Fn` for `_src_norm` on a node of another file"""
+    def __init__(self, file):
+        self.file = file
+
+    def source_text(self, n):
+        return Fn.source_text(self, n)
+
+
+class _InsertFn(Fn):
+    """`Fn` that also reads a field of the element in front of the iterator `where`: `(*std::prev(where))->f` is the input `prev_f`"""
+    def base_name(self, b):
+        txt = re.sub(r"\s+", "", self.source_text(b) or "")
+        if txt in ("(*std::prev(where))", "*std::prev(where)", "std::prev(where)->get()", "(*(where-1))", "*(where-1)", "where[-1]"):
+            return "prev"
+        return Fn.base_name(self, b)
+
+
+class _Sig:
+    def __init__(self, file, sig):
+        self.file, self.sig, self.memcmp_args = file, sig, None
+
+    def signature(self):
+        return self.sig
+
+
+def tr_todos_insert(repo, docs, src):
+    """`ToDos::Insert(todo)`: the index at which `emplace` puts the new element, as a function of the `when` values of the
+    list.  Two ways of searching are understood (anything else is untranslatable):
+      * `where = Find(P{todo->when})` with `Find(pred) = std::find_if(begin(), end(), pred)`: `findIfIdx P_call`
+      * `where = end(); while((where != begin()) && C(*std::prev(where))) --where;`: `backScanIdx C`
+    followed by `emplace(where, std::move(todo))` and nothing else."""
+    fn = find_function(docs, "Insert", "ToDos", ("CXXMethodDecl",))
+    file = _file_of(repo, docs, fn, src)
+    tt = _Tmp(file)
+    ss = [x for x in kids(body_of(fn)) if not _is_assert(x)]
+    txt = [_src_norm(tt, x).rstrip(";") for x in ss]
+    if not ss or txt[-1] not in ("(void)emplace(where,std::move(todo))", "emplace(where,std::move(todo))",
+                                 "(void)insert(where,std::move(todo))", "insert(where,std::move(todo))"):
+        fail("does not end in `emplace(where, std::move(todo))`")
+    sig = "(ws : List Int) (when : Int)"
+    m = re.match(r"^(?:auto|iterator|std::deque<ToDoShared>::iterator)where=Find\((\w+)\{todo->when\}\)$", txt[0]) if len(ss) == 2 else None
+    if m:
+        fdocs = ast_docs(repo, src, "Find")
+        finds = [x for d in fdocs for x in walk(d) if x.get("kind") == "CXXMethodDecl" and x.get("name") == "Find" and body_of(x) is not None]
+        # the template pattern and its instantiations share the source range of the pattern (in this file)
+        bodies = {tuple(_src_norm(tt, x).rstrip(";") for x in kids(body_of(find)) if not _is_assert(x)) for find in finds}
+        if bodies != {("returnstd::find_if(begin(),end(),pred)",)}:
+            fail("`Find` is not `return std::find_if(begin(), end(), pred)`")
+        pdocs = ast_docs(repo, src, m.group(1))
+        t, body = tr_function(repo, pdocs, src, "operator()", m.group(1), [("when", TPNS), ("x", TPNS)], {"todo_when": "x"}, BOOL)
+        body = "\n".join("    " + ln for ln in body.split("\n"))
+        return _Sig(file, sig), "  findIfIdx (fun (x : Int) =>\n%s) ws" % body
+    if len(ss) == 3 and txt[0] in ("autowhere=end()", "iteratorwhere=end()") and ss[1]["kind"] == "WhileStmt":
+        c, b = kids(ss[1])[0], kids(ss[1])[1]
+        if _src_norm(tt, b).strip("{}").rstrip(";") not in ("--where", "where--", "where=std::prev(where)"):
+            fail("the backward search does not step by `--where`")
+        c = _strip(c)
+        if c["kind"] != "BinaryOperator" or c.get("opcode") != "&&" or \
+                _src_norm(tt, kids(c)[0]).strip("()") not in ("where!=begin", "begin()!=where"):
+            fail("the backward search is not guarded by `where != begin()` first")
+        t = _InsertFn(repo, [("when", TPNS), ("x", TPNS)], {"todo_when": "when", "prev_when": "x"})
+        t.bind_params(fn)
+        t.file = file
+        v = t.expr(kids(c)[1])
+        return _Sig(file, sig), "  backScanIdx (fun (x : Int) =>\n    %s) ws ws.length" % as_bool(v)
+    fail("the search for the position is neither `Find(pred)` nor a backward scan from `end()`")
 
 
 def tr_range_guard(repo, docs, src):
@@ -1261,8 +1446,8 @@ def SPECS():
          lambda r, d, s: tr_decision(r, d, s, "Step", "DriverImpl", [("todos_empty", BOOL), ("timeout", MS)], {}, STEP_TABLE)),
         ("StepTodos_notDue", "Bool", "driver_impl.cpp", "DriverImpl::Step",
          lambda r, d, s: tr_steptodos_due(r, d, s)),
-        ("WhenBefore_call", "Bool", "todo_impl.cpp", "WhenBefore",
-         lambda r, d, s: tr_function(r, d, s, "operator()", "WhenBefore", [("when", TPNS), ("todo_when", TPNS)], {}, BOOL)),
+        ("Todos_Insert_pos", "Nat", "todo_impl.cpp", "ToDos::Insert",
+         lambda r, d, s: tr_todos_insert(r, d, s)),
         ("BufferPool_m_maxCount", "Int", "socket_buffered.cpp", "BufferPool::BufferPool",
          lambda r, d, s: tr_ctor_init(r, d, s, "BufferPool", "m_maxCount", [("maxCount", U64)], {}, U64)),
         ("BufferPool_Get", "GetChoice", "socket_buffered.cpp", "BufferPool::Get",
@@ -1296,7 +1481,7 @@ WHAT = {
     "Step_dispatch": "decision structure of `Driver::DriverImpl::Step(Duration timeout)`",
     "StepTodos_notDue": "`Driver::DriverImpl::StepTodos`: `until = front->when - deadline.now; if(until.count() > 0)` "
                         "(the branch returns `MinDuration(until, deadline.Remaining())`; same in every instantiation)",
-    "WhenBefore_call": "`WhenBefore::operator()(ToDoShared const &todo)`",
+    "Todos_Insert_pos": "`ToDos::Insert(ToDoShared todo)`: index (in the list of `when` values `ws`) at which the new element is emplaced",
     "BufferPool_m_maxCount": "`BufferPool::BufferPool(size_t maxCount, size_t)`, initialiser of `m_maxCount`",
     "BufferPool_Get": "decision structure of `BufferPool::Get`",
     "SockAddrView_lt": "`SockAddrView::operator<`",
@@ -1332,6 +1517,16 @@ TRUSTED part of the translator (tools/cxx2lean.py: `Chrono`, `convert`, `wrap_u`
    sequence exactly, otherwise the function is untranslatable.
 Anything outside the subset yields `-- UNTRANSLATABLE <name>: <reason>` and no definition. -/
 namespace SockModel.Gen
+
+/-- `std::find_if(begin(), end(), p) - begin()` on the list of the elements' `when` values -/
+def findIfIdx (p : Int → Bool) : List Int → Nat
+  | [] => 0
+  | x :: xs => if p x then 0 else findIfIdx p xs + 1
+
+/-- `it = begin() + n; while((it != begin()) && p(*std::prev(it))) --it;` then `it - begin()` -/
+def backScanIdx (p : Int → Bool) (ws : List Int) : Nat → Nat
+  | 0 => 0
+  | n + 1 => if p (ws.getD n 0) then backScanIdx p ws n else n + 1
 
 /-- outcome of `BufferPool::Get`; `reuseIdleTop clear`: `clear()` is called on the reused buffer -/
 inductive GetChoice where
